@@ -20,6 +20,7 @@ EXPLANATION = (
     "path_slice()), and the shape of the symbolic transaction (fresh msg.value / tx.origin / msg.sender, sender "
     "constraint built only from the target/excluded sets, timestamp constrained only from below, fresh "
     "calldata per call). Foundry's filter semantics as a truth table and coverage of sequences are not decided."
+    ' Also decided: StorageData.digest feeds keys and values through one hash state in sequence (no combination of separately hashed parts); Path.append records the transitively closed dependency set; targetSelector/excludeSelector entries accumulate per contract.'
 )
 ASSUMPTIONS = ["z3 term ids and Python object ids are stable while the objects are retained (retention is what R15.3 checks)"]
 
